@@ -6,6 +6,7 @@
      cc     user-function calls made while constructing
      steps  the documented loop: [v = Value(), ok = Next(), vc / nc = calls made by each]
      post   Value() of the exhausted iterator: [panic, v]
+     repoll Next() of the exhausted iterator: "false" | "true" | "panic"
    and, once, the function tables on a small domain so that the Go harness can check that its tables are the same. *)
 EXTENDS Iter, Json, Randomization
 CONSTANTS Shape, Width,
@@ -20,7 +21,7 @@ CaseOf(kind, e) == LET r == Run(e)
                        l == Sem(e)
                    IN [t |-> "case", kind |-> kind, expr |-> e, list |-> l,
                        fe |-> [k1 \in 1..Len(l) + 1 |-> ForEachL(l, k1 - 1)],
-                       nil |-> r.nil, cc |-> r.cc, steps |-> r.steps, post |-> r.post]
+                       nil |-> r.nil, cc |-> r.cc, steps |-> r.steps, post |-> r.post, repoll |-> r.repoll]
 Final(W) == \E w \in W : w[1] \in {"seq", "pair"}
 Thin(W) == IF PerBase = 0 \/ ~Final(W) \/ Cardinality(W) <= PerBase THEN W ELSE RandomSubset(PerBase, W)
 
